@@ -15,5 +15,6 @@ CONSTANTS
   MAX = 32767
   MaxDigits <- SmallMaxDigits
   Extra <- NoExtra
+  ExtraSeq <- NoExtraSeq
 INVARIANTS GrammarTotal UnderscoreAgree DenotAgree ScannersAgree FastPathExact AtofAgrees AtoiAgrees IntIsFloat CaseBlind DigitBlind ThresholdRule
 CHECK_DEADLOCK FALSE
